@@ -143,6 +143,8 @@ void vrt_fiber_setup(void) {
   static const char* secs[] = {"wsd_work_stealing_deque_push_bottom", "wsd_work_stealing_deque_pop_bottom",
                                "wsd_work_stealing_deque_steal", "wsd_work_stealing_deque_size"};
   for (unsigned i = 0; i < sizeof secs / sizeof secs[0]; i++) vrt_atomic_section(secs[i]);
+  /* every pop attempt of the runtime's waiter queues is an event (pinned to label k1 of wake_mpsc) */
+  vrt_trace_call("mpsc_fifo_trypop");
 }
 
 /* ---- abstract view of an MPSC wait queue: fibers reachable from head (in
